@@ -86,6 +86,13 @@ CLAIMS.update({
          "3.8, 4 (C22)"),
 })
 
+CLAIMS.update({
+ "C23": ("SSA leaf-discipline rule on Position.Character, dominance guards on client-supplied indices, go-statement scan and def-use checks of the change handlers",
+         "Decides that outbound positions are built only from UTF-16 unit counts, that the inbound conversion handles surrogate pairs, that client arrays are length-checked before indexing, that the server has no concurrency of its own and publishes each change's own version after storing the document, that the serialising handler chain is installed, and that diagnostic ranges are clamped to one line. Necessary conditions; transport and semantic correctness of definitions are not decided.",
+         "go.lsp.dev handler chain semantics (reply after return) read from the vendored sources.",
+         "3.11, 4 (C23)"),
+})
+
 NA = {
 }
 
